@@ -26,7 +26,25 @@ From PV Require Import Base.Bytes Codec.Micheline Codec.Printer Codec.Lexer Code
 From PV Require Import Proofs.Printer_proofs Proofs.Lexer_proofs Proofs.Parser_proofs.
 Import ListNotations.
 
-(* FULL STATEMENT (not provable for the code as it is):
+(* THE PROPERTY for the exact text the formatter writes: [format_text inline e] is the model of
+   micheline_to_michelson(e, inline) character for character (line-width rule, indentation, glued
+   semicolons of script roots, trailing blank of an argument-less IF), in BOTH layouts.
+   FULL STATEMENT (not provable for the code as it is): the same for every e that denotes Michelson
+   code, a type or data.  Missing: the class refuted below (C18_inner_sigil_annot_refuted). *)
+Theorem C18_parse_format_partial : forall inline e,
+  wf_expr e = true -> parse_text (format_text inline e) = TNode e.
+Proof. exact parse_format_text. Qed.
+Print Assumptions C18_parse_format_partial.
+
+(* that text is a layout of the token stream fmt_tokens e (so the layout-quantified theorem below
+   applies to it), in both modes *)
+Theorem C18_format_text_tokens : forall inline e,
+  tags_ok e = true -> lex (format_text inline e) = LexOk (fmt_tokens e).
+Proof. exact lex_format_text. Qed.
+Print Assumptions C18_format_text_tokens.
+
+(* The same for EVERY layout of the tokens, not only the two the formatter produces.
+   FULL STATEMENT (not provable for the code as it is):
      forall e lt final, e denotes Michelson code, a type or data ->
        map snd lt = fmt_tokens e -> layout_ok None lt = true -> forallb wf_filler final = true ->
        parse_text (render lt final) = TNode e.
@@ -144,6 +162,13 @@ Example C18_example_constant_arg :
   wf_expr (NPrim x07 [NPrim x92 [NStr [x78]] []; NPrim x98 [NSeq []] [];
                       NPrim x9d [NStr [x4b]; NPrim x62 [] []; NInt 1; NInt 1] []] []) = true.
 Proof. vm_compute. reflexivity. Qed.
+(* the multi-line text really has newlines: a sequence wider than 100 columns *)
+Example C18_example_multiline :
+  let e := NSeq (repeat (NPrim x43 [NPrim x62 [] [[x25; x61; x62; x63]]; NInt 1234567] []) 6) in
+  wf_expr e = true /\ existsb (byte_eqb c_lf) (format_text false e) = true /\
+  existsb (byte_eqb c_lf) (format_text true e) = false /\
+  parse_text (format_text false e) = TNode e /\ parse_text (format_text true e) = TNode e.
+Proof. vm_compute. repeat split. Qed.
 (* outside the domain by design: a root list holding one section prints as the bare section *)
 Example C18_single_section_root :
   parse_tokens (fmt_tokens (NSeq [NPrim x02 [NSeq []] []])) = TNode (NPrim x02 [NSeq []] []).
